@@ -202,6 +202,8 @@ MemberMETHODExpression * MemberMETHODExpression::parse(Parser& p, Context& ctx, 
           if (score == match)
           {
             DBG(DBG_DEBUG, "%s: found method %s id=%d\n", __FUNCTION__, method.name, method.id);
+            for (unsigned a = 0; a < method.args_count; ++a)
+              args[a] = plugin::guard_object(args[a], method.args[a].type, type_id);
             return new MemberMETHODExpression(method, exp_type.minor(), exp, std::move(args));
           }
           /* else keep the one with the highest score */
@@ -220,6 +222,8 @@ MemberMETHODExpression * MemberMETHODExpression::parse(Parser& p, Context& ctx, 
     {
       const PLUGIN_METHOD& method = plug.interface.methods[f_no];
       DBG(DBG_DEBUG, "%s: found method %s id=%d\n", __FUNCTION__, method.name, method.id);
+      for (unsigned a = 0; a < method.args_count; ++a)
+        args[a] = plugin::guard_object(args[a], method.args[a].type, type_id);
       return new MemberMETHODExpression(method, exp_type.minor(), exp, std::move(args));
     }
 
